@@ -6,7 +6,7 @@
 From Coq Require Import ZArith List Bool Reals.
 From Flocq Require Import IEEE754.BinarySingleNaN.
 From F8 Require Import C08.NumInt C08.NumFloat C08.Spec_C08 C08.NumIntProofs C08.NumFloatProofs
-  C08.NumFloatShapeProofs C08.NumFloatRoundProofs.
+  C08.NumFloatShapeProofs C08.NumFloatRoundProofs C08.NumFloatOracleProofs.
 Import ListNotations.
 Local Open Scope Z_scope.
 
@@ -157,6 +157,13 @@ Theorem c08_dtoa_int_partial : forall n p, Z.abs n < 2147483648 -> 0 <= p <= 9 -
   (DT_text (canon_dec n ++ (if p =? 0 then [] else [46; 48])), Some (f_of_Z n)).
 Proof. exact float_roundtrip_int_lemma. Qed.
 Print Assumptions c08_dtoa_int_partial.
+
+(* ... in the property's own terms: the oracle c08_float_ok (value in the domain, text = correctly
+   rounded decimal with <= p fraction digits, parse within half an ulp) accepts that round trip. *)
+Theorem c08_dtoa_int_oracle : forall n p, Z.abs n < 2147483648 -> 0 <= p <= 9 ->
+  roundtrip_ok (f_of_Z n) p = true.
+Proof. exact roundtrip_ok_int_lemma. Qed.
+Print Assumptions c08_dtoa_int_oracle.
 
 (* Shape, for EVERY finite double and every precision argument (clamped to 0..9 as the code does):
    whenever modp_dtoa writes a decimal text it is [-]digits without redundant leading zero, with
